@@ -210,3 +210,18 @@ fn f128_canary_must_fail() {
     let (a, b) = (any_rep(), any_rep());
     assert!(add(a, b) >= a);
 }
+
+// ---- quadratic extension over the 128-bit field: the multiplier-free functions, checked directly ----
+/// frobenius([x0, x1]) == [x0 + x1, -x1], both canonical (conjugation with the other root 1 - phi)
+#[kani::proof]
+fn f128_ext2_frobenius_contract() {
+    let (a, b) = (any_rep(), any_rep());
+    let r = <BaseElement as ExtensibleField<2>>::frobenius([BaseElement(a), BaseElement(b)]);
+    assert!(r[0].0 < M && r[1].0 < M);
+    assert!(r[0].0 == add(a, b));
+    assert!(r[1].0 == if b == 0 { 0 } else { M - b });
+    // conjugation is an involution and fixes exactly the base field
+    let rr = <BaseElement as ExtensibleField<2>>::frobenius(r);
+    assert!(rr[0].0 == a && rr[1].0 == b);
+    assert!((r[0].0 == a && r[1].0 == b) == (b == 0));
+}
